@@ -94,6 +94,9 @@ func TestGen(t *testing.T) {
 	if only("consensus") {
 		probeConsensusDecode(t, uks)
 	}
+	if only("race") {
+		probeRaces(t, sks, uks, sh)
+	}
 	if only("dutiescache") {
 		probeDutiesCache(t)
 	}
